@@ -760,6 +760,10 @@ func blobSlowStoreSim(r *simcore.Run) {
 			}
 			return true
 		}
+		// polls begin and downloads end at multiples of 30 s after the start; the simulator acts 7 s off that grid, so
+		// that it never draws at the same instant as a goroutine of the provider (the order of those draws would be
+		// the Go scheduler's choice, not the seed's)
+		time.Sleep(7 * time.Second)
 		for step := 0; step < 3+s.Draw(6, "steps"); step++ {
 			var d []string
 			for _, k := range keys {
